@@ -3,7 +3,7 @@ import ast
 from collections import namedtuple
 
 from .model import AnalysisError, NotConst, fold, node_src, is_self_attr, call_name
-from .paths import Interp, Domain, Env, TOP, NONE, Const, TupleV, Exc, ORD, fmt_trace, Opaque, Ctx
+from .paths import Interp, Domain, Env, TOP, NONE, Const, TupleV, Exc, ORD, fmt_trace, Opaque, Ctx, FuncRef
 from .report import walk_no_nested
 from . import wire, spec, exchange
 from . import report as report_mod
@@ -123,6 +123,8 @@ class StoreDomain(ExactCollections, ReplyDomain):
             return state.get(name)
         if name in self.readers:
             return Opaque("reader")
+        if name in self.base.functions and not state.has(name):
+            return FuncRef(name)  # a module-level helper of base.py, as a value (it may be chosen by a conditional)
         if name in self.base.assigns and name.isupper():
             try:
                 return _lift(self.base.const(name))
@@ -161,6 +163,10 @@ class StoreDomain(ExactCollections, ReplyDomain):
         if r is not None:
             return r
         name = call_name(node)
+        if isinstance(fval, FuncRef) and fval.name in self.base.functions and fval.name not in self.readers:
+            res = self.inline(node, self.base.functions[fval.name], args, kwargs, state)
+            if res is not None:
+                return res
         if fval == Opaque("reader") or (name in ("partial", "functools.partial") and args and args[0] == Opaque("reader")):
             if name in ("partial", "functools.partial"):
                 return [("ok", Opaque("reader"), state)]
@@ -589,6 +595,9 @@ def run(chk):
     report.include_rules(chk, r5, rules_C01, ("C01.R3",), "each call reads exactly the reply lines of its own commands, up to the terminator")
     from . import rules_C12
 
+    from . import rules_C03
+
+    report.include_rules(chk, r3, rules_C03, ("C03.R5",), "the value handed to the caller is the data block the server sent, byte for byte (the readers take it by its announced size and look at none of its bytes)")
     report.include_rules(chk, r3, rules_C12, ("C12.R4",), "through HashClient the result is the merge of what every server answered: a key a server holds is not reported absent, a failed store is not reported stored")
     report.include_rules(chk, r5, rules_C01, ("C01.R1",), "a call that ends with an error reply leaves no unread replies of its batch on a connection that stays in use: later calls would report those as their own outcome")
     # the value that decides whether replies are read is the one that put ` noreply` on the wire (same rule as C01.R2b)
